@@ -94,6 +94,7 @@ struct C06 : Property {
           else if (x < 0.70) replies.push_back({{"sess", s}, {"rx", k}, {"kind", "ack_foreign"}});
           else if (x < 0.73) replies.push_back({{"sess", s}, {"rx", k}, {"kind", "ack_wrong_mid"}});
           else if (x < 0.80) replies.push_back({{"sess", s}, {"rx", k}, {"kind", r.chance(0.5) ? "sep_con" : "sep_non"}, {"delay_us", r.range(0, (int64_t)at * 1500)}});
+          else if (x < 0.83) replies.push_back({{"sess", s}, {"rx", k}, {"kind", "non_same_mid"}, {"delay_us", r.range(0, 100000)}});
         }
       for (int dir = 0; dir < 2; dir++)
         for (int k = 0; k < 12; k++) {
@@ -177,6 +178,19 @@ struct C06 : Property {
             rs.token = rq.token;
             rs.payload = {'o', 'k'};
             Bytes b = r1::encode_udp(rs);
+            w.after_us(delay, [fd, to, b]() { simk::raw_sendto(fd, to, b); });
+            continue;
+          }
+          if (kind == "non_same_mid") {
+            // the peer's own Non-confirmable message (its message ids are an independent number space) happens to carry
+            // the same message id as our Confirmable: it must not conclude anything
+            r1::Msg nm;
+            nm.type = 1;
+            nm.code = 0x45;
+            nm.mid = mid;
+            nm.token = {0x99, (uint8_t)k};
+            nm.payload = {'z'};
+            Bytes b = r1::encode_udp(nm);
             w.after_us(delay, [fd, to, b]() { simk::raw_sendto(fd, to, b); });
             continue;
           }
